@@ -14,6 +14,7 @@ import (
 	"runtime"
 	"sort"
 	"sync"
+	"time"
 
 	"github.com/syndtr/goleveldb/leveldb/storage"
 )
@@ -271,6 +272,23 @@ func (s *Stor) fault(k OpKind, t storage.FileType) *Fault {
 		return f
 	}
 	return nil
+}
+
+// AddDelay makes the next matching operation sleep for d before it proceeds (one shot). It only
+// widens a window; nothing is decided by the duration.
+func (s *Stor) AddDelay(k OpKind, t storage.FileType, d time.Duration) {
+	g := &Gate{Kind: k, Type: t, arrived: make(chan struct{}), release: make(chan struct{})}
+	s.mu.Lock()
+	s.gates = append(s.gates, g)
+	s.mu.Unlock()
+	go func() {
+		select {
+		case <-g.arrived:
+			time.Sleep(d)
+		case <-time.After(10 * time.Second):
+		}
+		g.Release()
+	}()
 }
 
 // gate blocks at a matching gate; mu must be held on entry and is held on return.
